@@ -506,6 +506,7 @@ class StmtMixin:
             f0 = self.eval_inv(inv, k, "entry", line, {"_i": SV(z3.IntVal(0), T.INT)})
             self.oblige("inv-entry", f"loop{k}", f0, line)
             self.havoc_for_loop(st.body + [ast.Assign([st.target], st.iter, lineno=line)])
+            head_types = {n_: v_.ty for n_, v_ in self.st.env.items() if isinstance(v_, SV) and v_.term is not None}
             src = self.iter_source(st.iter)
             var, dom, el, pos, size = self.domain(src, "it")
             if pos is None or size is None:
@@ -535,11 +536,23 @@ class StmtMixin:
             src_after = self._src_term(self.iter_source(st.iter))
             if src_before is not None and src_after is not None and not z3.eq(src_before, src_after):
                 self.oblige("loop-source-stable", f"loop{k}", src_before == src_after, line)
+            self._check_loop_types(head_types, line)
             f1 = self.eval_inv(inv, k, "step", line, {"_i": SV(i + 1, T.INT)})
             self.oblige("inv-step", f"loop{k}", f1, line)
             raise PathEnd()
         finally:
             fr.loop_ctx.pop()
+
+    def _check_loop_types(self, head_types: dict, line: int):
+        """the value a variable holds at the end of an iteration must fit the type it was havocked with at the head
+        (python does not care, the encoding does): narrowing obligations are generated, anything else is refused"""
+        for n_, ht in head_types.items():
+            v = self.st.env.get(n_)
+            if isinstance(v, SV) and v.term is not None and v.ty != ht:
+                try:
+                    self.st.env[n_] = SV(self.coerce(v, ht, line).term, ht)
+                except Unsupported:
+                    raise Unsupported(f"loop changes the type of '{n_}' from {ht} to {v.ty} (line {line})")
 
     def _src_term(self, src):
         if isinstance(src, SV):
@@ -577,7 +590,10 @@ class StmtMixin:
             return self._subst_value(el, var, i)
         return self._subst_value(el, var, i)
 
-    ex_AsyncFor = None
+    def ex_AsyncFor(self, st):
+        # `async for` over a stream: the stream is treated as the finite sequence of items it yields (the contract
+        # of the function says so in its notes); awaits between items do not touch the function's locals
+        return self.ex_For(st)
 
     def ex_While(self, st):
         line = st.lineno
@@ -593,6 +609,7 @@ class StmtMixin:
         try:
             self.oblige("inv-entry", f"loop{k}", self.eval_inv(inv, k, "entry", line, {}), line)
             self.havoc_for_loop(st.body)
+            head_types = {n_: v_.ty for n_, v_ in self.st.env.items() if isinstance(v_, SV) and v_.term is not None}
             self.st.pc.append(self.eval_inv(inv, k, "assume", line, {}))
             g = self.truthy(self.ev(st.test))
             ch = self.choose(2, f"loop{k}@{line}:")
@@ -610,6 +627,7 @@ class StmtMixin:
                 pass
             except BreakSignal:
                 return
+            self._check_loop_types(head_types, line)
             self.oblige("inv-step", f"loop{k}", self.eval_inv(inv, k, "step", line, {}), line)
             raise PathEnd()
         finally:
